@@ -178,6 +178,17 @@ class LocationShapes(Case):
         lon = np.array([(-170.0 + 37.0 * i) if i != 2 else np.nan for i in range(nl)]).reshape(sl)
         lat = np.array([(-80.0 + 41.0 * i) % 170 - 85 for i in range(na)]).reshape(sa)
         kw = {"range_max": values["rmax"]} if values.get("rmax") is not None else {}
+        if values.get("bbox"):
+            kw["bbox"] = tuple(values["bbox"])
+        # memory layout of the N-D inputs (same logical cells): Fortran order, a transposed view, or lon and
+        # lat laid out differently - every cell is judged by its own coordinates, hops follow row-major order
+        lay = values.get("layout", "C")
+        if lay in ("F", "mixed"):
+            lon = np.asfortranarray(lon)
+        if lay == "F":
+            lat = np.asfortranarray(lat)
+        if lay == "T":
+            lon, lat = np.ascontiguousarray(lon.T).T, np.ascontiguousarray(lat.T).T
         try:
             out = mod.location_test(lon, lat, **kw)
         except ValueError:
@@ -186,7 +197,7 @@ class LocationShapes(Case):
             return "shapes %s / %s: %r" % (sl, sa, e)
         if sl != sa:
             return "lon %s and lat %s have different shapes but were accepted (flags of shape %s)" % (sl, sa, getattr(out, "shape", None))
-        flat = mod.location_test(lon.ravel(), lat.ravel(), **kw)
+        flat = mod.location_test(np.array(lon.tolist()).ravel(), np.array(lat.tolist()).ravel(), **kw)
         if out.shape != sl or np.ma.filled(np.ma.masked_array(out), 255).ravel().tolist() != np.ma.filled(np.ma.masked_array(flat), 255).tolist():
             return "shape %s: flags %s differ from the flattened call %s" % (sl, np.asarray(out).tolist(), np.asarray(flat).tolist())
         return None
@@ -196,6 +207,12 @@ class LocationShapes(Case):
             for rmax in (None, 3000000):
                 v = {"lon_shape": list(sl), "lat_shape": list(sa), "rmax": rmax}
                 yield ("shapes", "shapes", v, (lambda v=v: self.one(v)))
+        for sh in ((2, 3), (4, 3), (3, 2), (2, 2, 3)):
+            for lay in ("F", "T", "mixed"):
+                for rmax in (None, 3000000):
+                    for bbox in (None, (-100, -60, 100, 60)):
+                        v = {"lon_shape": list(sh), "lat_shape": list(sh), "rmax": rmax, "layout": lay, "bbox": list(bbox) if bbox else None}
+                        yield ("shapes", "shapes", v, (lambda v=v: self.one(v)))
 
     def replay_bounded(self, label, values):
         return self.one(values)
